@@ -14,20 +14,27 @@ Local Open Scope list_scope.
 
 (* "An expression that contains anything other than the whitelisted syntax is
    rejected": for every tree and every whitelist, the visitor rejects iff some
-   node kind is not whitelisted ... *)
+   node is bad — its class is not whitelisted, or it is one of the two names
+   (`__debug__`, `__builtins__`) that CPython would resolve without their
+   being supplied (fix 9296d0f) ... *)
 Theorem c24_rejected_iff_non_whitelisted : forall wl t,
   (exists k, first_bad wl t = Some k) <->
-  (exists k, In k (preorder t) /\ whitelisted wl k = false).
+  (exists p, In p (preorder_nodes t) /\ bad_node wl p = true).
 Proof. exact rejected_iff. Qed.
+
+(* in particular any node whose class is not whitelisted, anywhere in the tree *)
+Theorem c24_non_whitelisted_kind_rejected : forall wl t k,
+  In k (preorder t) -> whitelisted wl k = false -> exists k', first_bad wl t = Some k'.
+Proof. exact contains_bad_rejected. Qed.
 
 (* ... the node reported (error_node / error_type) is the FIRST such node in
    ast.NodeVisitor order ... *)
 Theorem c24_first_in_visit_order : forall wl t k,
   first_bad wl t = Some k ->
-  exists before after,
-    preorder t = before ++ k :: after /\
-    whitelisted wl k = false /\
-    forallb (whitelisted wl) before = true.
+  exists before n after,
+    preorder_nodes t = before ++ (k, n) :: after /\
+    bad_node wl (k, n) = true /\
+    forallb (fun p => negb (bad_node wl p)) before = true.
 Proof. exact rejected_first. Qed.
 
 (* ... "before any part of it is evaluated": the evaluator's outcome is
@@ -54,7 +61,7 @@ Proof.
   intros env truthy wl t tr o H Hn. unfold restricted_eval in H.
   destruct (first_bad wl t) as [k|] eqn:E.
   - injection H as <- <-. exfalso. now apply (Hn k).
-  - split; [now apply accepted_iff|]. intros F. now rewrite F in H.
+  - split; [now apply accepted_all_whitelisted|]. intros F. now rewrite F in H.
 Qed.
 
 (* With CompletionEvaluator's whitelist (as it is in /repo now) every accepted
@@ -116,44 +123,34 @@ Proof.
   destruct (in_fragment t); [|reflexivity]. now apply py_eval_ext.
 Qed.
 
-(* ... the literal claim — every value is one of the supplied objects, every
-   other name raises NameError — ... *)
-Definition c24_only_supplied_variables : Prop :=
-  forall env truthy t tr v,
-    py_eval env truthy t = (tr, Val v) ->
-    exists n i, In n (names t) /\ env n = Some i /\ v = VObj i.
-
-(* ... is FALSE of the code as it stands: `__debug__` is replaced by the
-   constant True by the compiler, and `__builtins__` resolves to the (empty)
-   dict passed as globals (known findings; harmless, no code can run). *)
-Theorem c24_only_supplied_variables_refuted : ~ c24_only_supplied_variables.
-Proof.
-  intros H.
-  destruct (H (fun _ => None) (fun _ => false)
-              (Node "Expression" 0 [Node "Name" DEBUG [Node "Load" 0 []]]) [] VTrue eq_refl)
-    as [n [i [_ [E _]]]].
-  discriminate.
-Qed.
-
-(* What holds: apart from those two names, the value is a supplied object, a
-   NameError names a variable that was not supplied, and the only objects ever
-   touched (truth-tested) are supplied ones named in the expression. *)
-Theorem c24_only_supplied_variables_partial : forall env truthy t tr o,
-  ~ In DEBUG (names t) -> ~ In BUILTINS (names t) ->
+(* ... and only the supplied variables are visible: every value is one of the
+   supplied objects named in the expression, a NameError names a variable that
+   was not supplied, and the only objects ever touched (truth-tested) are
+   supplied ones named in the expression.  Full statement since fix 9296d0f
+   (formerly refuted by `__debug__` -> True and `__builtins__` -> {}). *)
+Theorem c24_only_supplied_variables : forall env truthy t tr o,
   py_eval env truthy t = (tr, o) ->
   (forall i, In i tr -> exists n, In n (names t) /\ env n = Some i) /\
   (forall v, o = Val v -> exists n i, In n (names t) /\ env n = Some i /\ v = VObj i) /\
   (forall n, o = NameErr n -> In n (names t) /\ env n = None).
 Proof.
-  intros env truthy t tr o Hd Hb E.
+  intros env truthy t tr o E.
   pose proof (py_eval_good env truthy t) as [Ht Ho]. rewrite E in Ht, Ho. cbn in Ht, Ho.
   split; [exact Ht|]. split.
-  - intros v ->. destruct v as [i| |].
-    + destruct Ho as [n [Hn He]]. exists n, i. auto.
-    + contradiction.
-    + destruct Ho. contradiction.
+  - intros v ->. destruct v as [i]. destruct Ho as [n [Hn He]]. exists n, i. auto.
   - intros n ->. exact Ho.
 Qed.
+
+(* the two interpreter-provided names never reach evaluation, whatever the
+   whitelist: a tree naming one of them is rejected, an accepted tree names
+   neither *)
+Theorem c24_reserved_names_rejected : forall wl t n,
+  n = DEBUG \/ n = BUILTINS -> In n (names t) -> exists k, first_bad wl t = Some k.
+Proof. exact reserved_rejected. Qed.
+
+Theorem c24_accepted_names_no_reserved : forall wl t,
+  first_bad wl t = None -> ~ In DEBUG (names t) /\ ~ In BUILTINS (names t).
+Proof. exact accepted_no_reserved. Qed.
 
 (* ---- non-vacuity ---- *)
 Definition name (n : nat) : pyast := Node "Name" n [Node "Load" 0 []].
@@ -178,6 +175,16 @@ Example c24_ex_reject_call :
 Proof. vm_compute. reflexivity. Qed.
 Example c24_ex_reject_add :
   restricted_eval ex_env ex_truthy completion_whitelist (Some ex_add) = ([], Rejected "Add").
+Proof. vm_compute. reflexivity. Qed.
+(* regression witnesses of the fixed findings *)
+Example c24_ex_debug_rejected :
+  restricted_eval ex_env ex_truthy completion_whitelist
+    (Some (Node "Expression" 0 [name DEBUG])) = ([], Rejected "Name").
+Proof. vm_compute. reflexivity. Qed.
+Example c24_ex_builtins_rejected :
+  restricted_eval ex_env ex_truthy completion_whitelist
+    (Some (Node "Expression" 0 [Node "BoolOp" 0 [Node "Or" 0 []; name 3; name BUILTINS]]))
+  = ([], Rejected "Name").
 Proof. vm_compute. reflexivity. Qed.
 Example c24_ex_wf : binop_wf operator_kinds ex_add = true.
 Proof. vm_compute. reflexivity. Qed.
